@@ -102,7 +102,8 @@ RecvOp(k, buflen) ==
 
 (* ------------------------------- Send ---------------------------------- *)
 (* ret 0 ok, -1 empty buffer, -2 more than 255 fragments.  In stream mode the tail of the last  *)
-(* queued segment is filled first -- and stays filled even when the call then fails with -2.    *)
+(* queued segment is filled first; a call that will fail with -2 is refused before anything is  *)
+(* taken (fix 'Send in stream mode keeps part of a buffer it refuses').                         *)
 RECURSIVE Fragments(_, _, _, _, _)
 Fragments(n, mss, count, i, off) ==
   IF i = count THEN <<>>
@@ -117,7 +118,8 @@ SendOp(k, n) ==
       ext  == IF k.stream # 0 /\ q # <<>> /\ last.len < k.mss THEN Min(n, k.mss - last.len) ELSE 0
       k1   == IF ext > 0 THEN [k EXCEPT !.snd_queue[Len(q)].len = @ + ext, !.woff = @ + ext] ELSE k
       n1   == n - ext
-  IN IF k.stream # 0 /\ n1 = 0 THEN [k |-> k1, ret |-> 0]
+  IN IF ext > 0 /\ (n1 + k.mss - 1) \div k.mss > 255 THEN [k |-> k, ret |-> -2]
+     ELSE IF k.stream # 0 /\ n1 = 0 THEN [k |-> k1, ret |-> 0]
      ELSE LET count == IF n1 <= k.mss THEN 1 ELSE (n1 + k.mss - 1) \div k.mss IN
           IF count > 255 THEN [k |-> k1, ret |-> -2]
           ELSE LET fr   == Fragments(n1, k.mss, count, 0, k1.woff)
